@@ -1,0 +1,8 @@
+//go:build verif
+
+package dbkit
+
+// VerifAvailable returns the number of tokens currently available.
+func (s *Semaphore) VerifAvailable() int {
+	return len(s.tokens)
+}
